@@ -65,6 +65,32 @@ def relational_for(prop, ctx, lane):
         OR.check_frame_twin(ctx, lane)
     if prop in ("C08", "ALL"):
         OR.check_looser_passfail(ctx, lane)
+    if prop in ("C16", "ALL") and ctx.plan.get("sibling"):
+        # a second, different dataset with the same timestamps and tokens loaded in the same process
+        from .plan import derive_sibling
+
+        sub = OR._sub_ctx(ctx, derive_sibling(ctx.plan))
+        sib = X.Lane(sub, "sibling", monitors=[OW.C16Monitor(sensing_load=False)])
+        try:
+            X._install_wrappers()
+            sib.build_manager()
+            ctx.probe("c16_sibling_dataset")
+        except X.LaneAborted:
+            pass
+    if prop in ("C19", "ALL") and ctx.plan.get("sibling"):
+        from .plan import derive_sibling
+
+        p2 = derive_sibling(ctx.plan)
+        p2["ops"] = [op for op in p2["ops"] if op["op"] != "analyze"]
+        sub = OR._sub_ctx(ctx, p2)
+        sib = X.Lane(sub, "sibling", monitors=[])
+        sib.run()
+        if not sib.aborted and not lane.aborted:
+            s1, e1 = OA.lane_scenes(lane)
+            s2, e2 = OA.lane_scenes(sib)
+            if s1 and s2:
+                ctx.probe("c19_two_dataset_analysis")
+                OA.check_tables(ctx, lane, s1 + s2, e1 + e2, [1, 3, 9][ctx.plan["run"] % 3], None)
     if prop in ("C16",):
         # crash/restart of the evaluator: the files are the only durable state -> reload must give equal frames
         try:
